@@ -2,7 +2,6 @@
 //! Kani harnesses over the kernels of `emit_file` (rolling-file emitter), C10 / C11.
 //! Naming: `cNN_q_*` quick+thorough, `cNN_t_*` thorough only, `cNN_w_*` mutant twin (must FAIL).
 
-pub mod util;
 pub mod hfs;
 pub mod c10_write;
 pub mod c10_batch;
